@@ -66,7 +66,8 @@ func (w *World) GenVC(fn *ssa.Function, ct *Contract, opts ...func(*Engine)) (re
 		v := e.fresh("in."+p.Name(), p.Type())
 		e.assumeGlobal(e.validVal(st, v))
 		args = append(args, v)
-		if defaultNonNil(p.Type()) && !(ct != nil && ct.Nilable[p.Name()]) {
+		famNilable := e.OwnCheck && len(args) == 1 && (deepCopyKind(fn) == "DeepCopy" || deepCopyKind(fn) == "DeepCopyMessage" || deepCopyKind(fn) == "DeepCopyDataType")
+		if defaultNonNil(p.Type()) && !(ct != nil && ct.Nilable[p.Name()]) && !famNilable {
 			e.assumeGlobal(e.C.Not(e.C.Eq(v.Terms[0], e.C.IntLit(0))))
 			if isInterface(p.Type()) {
 				// and interface parameters do not hold typed nil pointers
@@ -76,6 +77,11 @@ func (w *World) GenVC(fn *ssa.Function, ct *Contract, opts ...func(*Engine)) (re
 		}
 	}
 	res.Params = e.inputTerms(st.clone(), fn, args)
+	e.ownAlloc0 = st.Alloc
+	if e.OwnCheck && deepCopyKind(fn) == "DeepCopyInto" && len(args) == 2 {
+		// the receiver and the destination are distinct objects
+		e.assumeGlobal(e.C.Not(e.C.Eq(args[0].Terms[0], args[1].Terms[0])))
+	}
 	var binds []Val
 	for _, fv := range fn.FreeVars {
 		v := e.fresh("free."+fv.Name(), fv.Type())
@@ -159,6 +165,9 @@ func (w *World) GenVC(fn *ssa.Function, ct *Contract, opts ...func(*Engine)) (re
 	}
 	entryAssumes := len(e.Assumes)
 	rets, exit, fr := e.execFuncTop(fn, args, binds, st, ct)
+	if e.OwnCheck && deepCopyKind(fn) != "" {
+		e.ownPost(fn, args, rets, fr.entry, exit)
+	}
 	for k, ic := range ifcs {
 		pf := ifFrames[k]
 		pf.entry = fr.entry
